@@ -54,7 +54,11 @@ def _host_fn(x):
 
 def make_host_parent():
     """the host's prepared context: a child of the standard context with a mutable variable and a function"""
-    if H.P('bare'):
+    if H.P('bare') == 'empty':
+        # a host context that has nothing but the host's own function: no finaliser, no standard library
+        from yaql.language import contexts
+        p = contexts.Context()
+    elif H.P('bare'):
         # a hand-assembled host chain that has no '#finalize' / '#iter' function of its own
         import yaql
         p = yaql.create_context(finalizer=_host_fn).create_child_context()
@@ -348,6 +352,10 @@ def conditions(tier, seed):
                     'param': {'text': text, 'kind': 'list', 'ns': ns, 'bounded': False, 'bare': True},
                     'bounds': '%s with $ = host list, evaluated in a child of a hand-assembled host context chain without '
                               '#finalize; the chain must stay unchanged' % text})
+    out.append({'name': 'fixed-empty[hostFn(1) | list]', 'func': 'apply', 'timeout': t,
+                'param': {'text': 'hostFn(1)', 'kind': 'list', 'ns': ns, 'bounded': False, 'bare': 'empty'},
+                'bounds': 'hostFn(1) evaluated in a child of a context that holds nothing but the host function (no finaliser, no '
+                          'library): the child and the chain keep exactly their variables and functions'})
     for kind, text in FIXED:
         if quick and (kind not in QUICK_KINDS or text not in QUICK_FIXED) and (kind, text) not in QUICK_ALWAYS:
             continue
